@@ -27,7 +27,7 @@ def scenario(tier):
             b.require(r.exit == 0, "setup-create", "%s %s" % (c, r))
         roots = sorted(set(chosen + ["R"]))
         b.require(cm.history_roots(b, "R") == [r for r in roots if r != "R"], "setup-roots", str(cm.history_roots(b, "R")))
-        mode = sym.choose("mode", ["folder", "folder-n", "sf"])
+        mode = sym.choose("mode", ["folder", "folder-n", "sf", "folder-dr-ignoring-B"])
         fmts = sym.choose("formats", [["md5"], ["xxh64", "c4"]])
         names_before = {r: b.manifest_names(r) for r in roots}
         if mode == "sf":
@@ -35,6 +35,14 @@ def scenario(tier):
             r = b.run("create", root="R", h=fmts, sf=[target])
             owner = cm.owner_history(target, roots, "R")
             expected_writers = {x for x in roots if cm.under(owner, x)}
+        elif mode == "folder-dr-ignoring-B":
+            # a second generation of the root (the first one records everything), then a new file, -dr and a pattern excluding folder B
+            r = b.run("create", root="R", h=fmts)
+            b.require(r.exit == 0, "setup-create", str(r))
+            names_before = {x: b.manifest_names(x) for x in roots}
+            b.mkfile("R/A/extra.txt", 70)
+            r = b.run("create", root="R", h=fmts, dr=True, i=["B"])
+            expected_writers = {x for x in roots if not cm.under(x, "R/B")}
         else:
             r = b.run("create", root="R", h=fmts, n=(mode == "folder-n"))
             expected_writers = set(roots)
@@ -47,6 +55,13 @@ def scenario(tier):
         for x in writers:
             b.require(len(news[x]) == 1, "one-new-manifest", "%s: %d" % (x, len(news[x])))
         # 1. partition
+        if mode == "folder-dr-ignoring-B":
+            ign = cm.make_ignored(cm.DEFAULT_IGNORES + ["B"], "R")
+            check_records(b, "R", fmts, roots, news, cm.expected_records(b, "R", [x for x in roots if not cm.under(x, "R/B")], ign))
+            for par in writers:
+                refs = news[par][0].references or []
+                b.require(not any(p.startswith("B/") for p, _ in refs), "references-direct-children", "%s references an ignored history: %s" % (par, refs))
+            return
         if mode == "sf":
             exp = {x: {} for x in roots}
             exp[owner][cm.rel_to(target, owner)] = "file"
